@@ -14,7 +14,7 @@ RULE = ('vespr_layout is wrapped with an icontract postcondition evaluated on EV
         '2-vector; no two bonded nodes closer than 1e-6 x the requested bond length; mean bond length == requested bond length '
         '(relative 1e-9). Workload: every connected graph-atlas graph with 2-7 nodes (quick: every 4th, thorough: all 995), '
         'chains, stars, rings, fused rings, grids and random trees up to 60 nodes, resolver outputs with hydrogens and with '
-        'cis/trans annotations (exercises the subgraph rotation); bond lengths {0.3, 1, 1.5, 7}; node relabelings (shuffled '
+        'cis/trans annotations (exercises the subgraph rotation); bond lengths {0.3, 1, 1.5, 7} and, less often, {0.002, 40, 250}; node relabelings (shuffled '
         'integers, sparse integers, strings); NumPy global RNG reseeded per call (spring initialisation). distinct = (graph '
         'class, size, relabeling, bond length); non-trivial = at least 3 nodes.')
 ASSUMPTIONS = ['coincidence threshold 1e-6 x bond length (smallest bonded distance seen in probes: 0.46 x)',
@@ -68,6 +68,9 @@ def setup():
             return positions_ok(graph, default_bond, result)
         return icontract.ensure(layout_postcondition, error=LayoutBroken)(orig)
     hooks.wrap_attr('cgsmiles.graph_layout', 'vespr_layout', factory, also=['cgsmiles.drawing'])
+
+
+BONDS = [0.3, 1, 1.5, 7, 0.3, 1, 1.5, 7, 40, 250, 0.002]
 
 
 def synth_graph(rng):
@@ -135,11 +138,11 @@ def cases(seed, tier, shard, nshards):
         if (k // cfg['atlas_step']) % nshards != shard:
             continue
         yield dict(kind='atlas', gid=i, edges=[list(e) for e in g.edges], nodes=list(g.nodes), how=rng.choice(['same', 'ints', 'sparse', 'str']),
-                   bond=rng.choice([0.3, 1, 1.5, 7]), sub=rng.randrange(10 ** 6), features=['atlas'])
+                   bond=rng.choice(BONDS), sub=rng.randrange(10 ** 6), features=['atlas'])
     for _ in range(cfg['synth'] // nshards):
         kind, g = synth_graph(rng)
         yield dict(kind=kind, gid=len(g), edges=[list(e) for e in g.edges], nodes=list(g.nodes), how=rng.choice(['same', 'ints', 'sparse', 'str']),
-                   bond=rng.choice([0.3, 1, 1.5, 7]), sub=rng.randrange(10 ** 6), features=[kind])
+                   bond=rng.choice(BONDS), sub=rng.randrange(10 ** 6), features=[kind])
     # graphs whose edges carry bond orders, zero-order (virtual) edges included
     from ..gen import mol as M_
     for _ in range(cfg['synth'] // (2 * nshards)):
@@ -147,7 +150,7 @@ def cases(seed, tier, shard, nshards):
         if not any(d['order'] >= 1 for _, _, d in g.edges(data=True)):
             continue      # premise: at least one bond
         yield dict(kind='ordered', gid=len(g), edges=[[a, b, d['order']] for a, b, d in g.edges(data=True)], nodes=list(g.nodes),
-                   how=rng.choice(['same', 'ints', 'str']), bond=rng.choice([0.3, 1, 1.5, 7]), sub=rng.randrange(10 ** 6),
+                   how=rng.choice(['same', 'ints', 'str']), bond=rng.choice(BONDS), sub=rng.randrange(10 ** 6),
                    features=['bond_orders'] + (['zero_order_edge'] if any(d['order'] == 0 for _, _, d in g.edges(data=True)) else []))
     # the drawing entry point: several drawings in one process must each come out at the scale asked for
     for _ in range(max(1, (cfg['mol'] // 6) // nshards)):
@@ -163,13 +166,13 @@ def cases(seed, tier, shard, nshards):
             c = c15.make_case(rng)
             if c is None:
                 continue
-            yield dict(kind='stereo_molecule', string=c['single'], bond=rng.choice([0.3, 1, 1.5, 7]), sub=rng.randrange(10 ** 6),
+            yield dict(kind='stereo_molecule', string=c['single'], bond=rng.choice(BONDS), sub=rng.randrange(10 ** 6),
                        features=['resolved_molecule', 'cis_trans_annotations'], gid=c['ndb'], how='same')
         else:
             c = MC.random_cut_case(rng, rng.choice([3, 6, 10, 16]), ctor='string')
             if c is None:
                 continue
-            yield dict(kind='molecule', string=c['base_string'] + '.' + c['frag_string'], bond=rng.choice([0.3, 1, 1.5, 7]),
+            yield dict(kind='molecule', string=c['base_string'] + '.' + c['frag_string'], bond=rng.choice(BONDS),
                        sub=rng.randrange(10 ** 6), features=['resolved_molecule'], gid=c['nheavy'], how=rng.choice(['same', 'coarse']))
         made += 1
 
